@@ -33,12 +33,39 @@ SrOK(e) ==
     [] e.fn = "zero" -> WEq2(e.sr, Zero(e.sr), e.res)
     [] e.fn = "one" -> WEq2(e.sr, One(e.sr), e.res)
 
+(* ---- Chart algebra (genlm/grammar/chart.py): a chart is a sequence of <<key, value>> with distinct keys; ---- *)
+(* ---- a missing key is the semiring zero                                                                 ---- *)
+CGet(sr, c, k) == IF \E i \in DOMAIN c : c[i][1] = k THEN c[CHOOSE i \in DOMAIN c : c[i][1] = k][2] ELSE Zero(sr)
+CKeys(c) == {c[i][1] : i \in DOMAIN c}
+CSame(sr, c, d) == \A k \in CKeys(c) \cup CKeys(d) : WEq2(sr, CGet(sr, c, k), CGet(sr, d, k))
+ChartOK(e) ==
+  LET sr == e.sr  a == e.a IN
+  CASE e.fn = "add" -> \A k \in CKeys(a) \cup CKeys(e.b) \cup CKeys(e.out) :
+                          WEq2(sr, Add(sr, CGet(sr, a, k), CGet(sr, e.b, k)), CGet(sr, e.out, k))
+    [] e.fn = "mul" -> \A k \in CKeys(a) \cup CKeys(e.b) \cup CKeys(e.out) :
+                          WEq2(sr, Mul(sr, CGet(sr, a, k), CGet(sr, e.b, k)), CGet(sr, e.out, k))
+    [] e.fn = "product" -> WEq2(sr, ProdSeq(sr, [i \in DOMAIN e.ks |-> CGet(sr, a, e.ks[i])]), e.res)
+    [] e.fn = "trim" -> /\ \A k \in CKeys(a) \cup CKeys(e.out) : WEq2(sr, CGet(sr, a, k), CGet(sr, e.out, k))
+                        /\ \A i \in DOMAIN e.out : e.out[i][2] # Zero(sr)
+    [] e.fn = "sum" -> WEq2(sr, SumSeq(sr, [i \in DOMAIN a |-> a[i][2]]), e.res)
+    [] e.fn = "normalize" ->       \* each value divided by the total (rationals); unchanged when the total is zero
+          LET Z == SumSeq(sr, [i \in DOMAIN a |-> a[i][2]]) IN
+          \A k \in CKeys(a) \cup CKeys(e.out) :
+             WEq2(sr, IF Z = Zero(sr) THEN CGet(sr, a, k) ELSE RDiv(CGet(sr, a, k), Z), CGet(sr, e.out, k))
+    [] e.fn = "project" ->         \* keys mapped through e.map (sequence of <<old, new>>), weights of merged keys add up
+          \A k \in {e.map[i][2] : i \in DOMAIN e.map} \cup CKeys(e.out) :
+             WEq2(sr, SumSeq(sr, [i \in DOMAIN e.map |-> IF e.map[i][2] = k THEN CGet(sr, a, e.map[i][1]) ELSE Zero(sr)]),
+                  CGet(sr, e.out, k))
+    [] e.fn = "filter" -> \A k \in CKeys(a) \cup CKeys(e.out) :
+             WEq2(sr, IF k \in SetOf(e.keep) THEN CGet(sr, a, k) ELSE Zero(sr), CGet(sr, e.out, k))
+
 Failed(e) ==
   IF Has(e, "exc") THEN {"raised"}
   ELSE CASE e.op = "closure" -> IF ClosureOK(e) THEN {} ELSE {"closure"}
          [] e.op = "solve" -> IF SolveOK(e) THEN {} ELSE {"solve"}
          [] e.op = "blocks" -> IF BlocksEvOK(e) THEN {} ELSE {"blocks"}
          [] e.op = "semiring" -> IF SrOK(e) THEN {} ELSE {"table"}
+         [] e.op = "chart" -> IF ChartOK(e) THEN {} ELSE {"chart"}
 
 VARIABLES sh, l
 Init == sh \in 0 .. (NSh - 1) /\ l = sh + 1
